@@ -16,6 +16,11 @@ claim("C16",
       "Trusted: Lean kernel; axioms propext/Classical.choice/Quot.sound; extractor; oracle hook + differ; go/token for the name class. SHA-256 executed not reasoned about; 'not a keyword' is a hash-prefix event, not proved.",
       "Lean 4 proof (all digests) + regenerated constants + oracle/model differential histories", "DESIGN.md 5/C16")
 
+claim("C01",
+      "PARTIAL by nature: behaviour preservation under renaming needs Go's semantics, which is not modelled. What IS proved (Lean 4, all configurations/packages/names): the naming decision (model of obfuscatedObjectName) is a function of the object descriptor and shared build data; interface and implementing methods agree; and each of the four RE-IMPLEMENTATIONS of that decision agrees with it - //go:linkname to functions, to T.m and (*T).m methods, assembly symbol references, go_asm.h offset names (incl. embedded fields), and the -ldflags=-X duplication - under explicitly stated hypotheses the proofs force (targets named main/init/TestMain/Test* with a testing.T signature are exempted only by the Go-source path; theorem exempt_names_disagree proves that gap). Tie: the oracle loads generated multi-package modules through the real go list route and dumps, for ~12k objects per run (module packages plus reflect, sync/atomic, embed, math/bits, fmt, os, testing...), the descriptor and the real decision; the model recomputes every decision, every obfuscated import path/package name, ~250 linkname rewrites and the assembly symbol names. End-to-end: generated programs (15 feature snippets incl. asm, linkname, -X, generics, cross-package struct conversion, tests) x garble flag sets x build/run/test x argument vectors vs. the regular toolchain.",
+      "Trusted: Lean kernel, 3 standard axioms, extractor (std tables), oracle hooks, program generator. NOT proved: that consistent renaming preserves behaviour (compiler/linker semantics); sampled by the e2e differential. Assembly tokenisation (replaceAsmNames scanning) is exercised by correspondence only.",
+      "Lean 4 proof (naming consistency across 5 code paths) + oracle/model differential on real go-list-loaded packages + e2e differential", "DESIGN.md 5/C01")
+
 claim("C12",
       "Lean 4 theorems over the model of garble's salt derivation (appendFlags, addGarbleToHash, hashWithPackage, hashWithStruct's salt, runtimeHashWithCustomSalt): seeded names depend only on (seed, import path | struct hash, identifier) for ANY two configurations and action IDs; the seeded pre-image is injective in the path (| separator) and in the seed; unseeded, the addGarbleToHash pre-image is injective in (action ID, garble binary ID, -literals, -tiny, -seed, ctrlflow, GOGARBLE) for all values - proved via unique decodability of the flag tokens and injectivity of base64 (this theorem was false before the fix: commit that hashes GOGARBLE last). Tie: differential histories of the real functions vs. the model over few seeds/paths/names and many configurations, plus the real seed flag parser.",
       "Trusted: Lean kernel, 3 standard axioms, oracle hook + differ. Assumed: SHA-256 collision resistance on the compared pre-images; cmd/go's action ID covers source/tags/GOOS/GOARCH/Go version; import paths contain no '|'.",
